@@ -191,8 +191,73 @@ theorem roundTrip_fields (c : ConsDef) :
     c.roundTrip.name = c.name ∧ c.roundTrip.table = c.table ∧ c.roundTrip.schema = c.schema ∧
     c.roundTrip.kind = c.kind := by
   cases c with
-  | mk kind name table schema body deferrable initially =>
+  | mk kind name table schema body deferrable initially refSchema =>
     cases kind <;> simp [ConsDef.roundTrip]
+
+/-- **`from_constraint ∘ to_constraint` keeps where a constraint lives and what it points at**: the source
+schema, the referent schema (foreign keys) and the body (columns, referred table and columns, ON UPDATE /
+ON DELETE / MATCH), for every constraint kind and all field values. -/
+theorem roundTrip_schemas (c : ConsDef) :
+    c.roundTrip.schema = c.schema ∧ c.roundTrip.refSchema = c.refSchema ∧ c.roundTrip.body = c.body := by
+  cases c with
+  | mk kind name table schema body deferrable initially refSchema =>
+    cases kind <;> simp [ConsDef.roundTrip]
+
+/-- ... hence reversing a `create_foreign_key` twice - and reversing the drop of a foreign key - gives a
+constraint op with the same source schema, the same referent schema and the same body; in particular a
+referent schema equal to the source schema is *not* dropped. -/
+theorem reverse_fk_schemas (c : ConsDef) :
+    ∃ d c', (Op.addConstraint c).reverse = some d ∧ d.reverse = some (Op.addConstraint c') ∧
+      c'.schema = c.schema ∧ c'.refSchema = c.refSchema ∧ c'.body = c.body ∧ c'.kind = c.kind := by
+  have h1 := roundTrip_schemas c
+  have h2 := roundTrip_fields c
+  refine ⟨_, c.roundTrip, rfl, ?_, h1.1, h1.2.1, h1.2.2, h2.2.2.2⟩
+  simp [Op.reverse]
+  exact roundTrip_idem c
+
+theorem reverse_dropFk_schemas (n : Option String) (t : String) (s : Option String) (ty : Option ConsKind)
+    (r : ConsDef) :
+    ∃ c', (Op.dropConstraint n t s ty (some r)).reverse = some (Op.addConstraint c') ∧
+      c'.schema = s ∧ c'.refSchema = r.refSchema ∧ c'.body = r.body := by
+  have h := roundTrip_schemas ({ r with name := n, table := t, schema := s } : ConsDef)
+  exact ⟨_, rfl, h.1, h.2.1, h.2.2⟩
+
+/-- non-vacuity: a foreign key whose referent schema equals its source schema -/
+example : ∃ d c', (Op.addConstraint ⟨.foreignKey, some "fk", "t", some "s2", "a>s2.other.id", none, none, some "s2"⟩).reverse
+      = some d ∧ d.reverse = some (Op.addConstraint c') ∧ c'.refSchema = some "s2" := by
+  obtain ⟨d, c', h1, h2, _, h4, _⟩ :=
+    reverse_fk_schemas ⟨.foreignKey, some "fk", "t", some "s2", "a>s2.other.id", none, none, some "s2"⟩
+  exact ⟨d, c', h1, h2, h4⟩
+
+/-! ### index keyword arguments (`postgresql_using`, `sqlite_where`, `postgresql_where`, ...) -/
+
+/-- **Reversing the drop of an index creates it with every keyword argument the drop op holds** (only
+`unique`, which `DropIndexOp.from_index` stores next to the dialect kwargs, moves to its own field): a
+partial index stays partial. -/
+theorem reverse_dropIndex_kw (n : Option String) (t : String) (s : Option String) (f : Option Bool)
+    (kw : List (String × String)) (rev : Option IndexDef) :
+    ∃ ix, (Op.dropIndex n t s f kw rev).reverse = some (Op.createIndex ix none) ∧
+      ix.kw = kw.filter (fun p => p.1 != "unique") ∧ ix.name = n ∧ ix.table = t ∧ ix.schema = s := by
+  exact ⟨_, rfl, rfl, rfl, rfl, rfl⟩
+
+/-- **Reversing a `create_index` twice keeps every keyword argument** (and columns, uniqueness, name, table,
+schema), whatever the `if_not_exists` flag was. -/
+theorem reverse_reverse_createIndex_kw (ix : IndexDef) (f : Option Bool)
+    (hk : ∀ p ∈ ix.kw, p.1 ≠ "unique") :
+    ∃ d, (Op.createIndex ix f).reverse = some d ∧ d.reverse = some (Op.createIndex ix none) := by
+  refine ⟨_, rfl, ?_⟩
+  cases ix with
+  | mk n t s cols u kw =>
+    have hkw : List.filter (fun p => p.1 != "unique") kw = kw := by
+      apply List.filter_eq_self.mpr
+      intro p hp
+      simpa using hk p hp
+    cases u <;> simp [Op.reverse, dropIndexOf, dropIndexToIndex, hkw]
+
+/-- non-vacuity: a partial index -/
+example : ∃ d, (Op.createIndex ⟨some "ix", "t", none, ["a"], false, [("sqlite_where", "a > 0")]⟩ (some true)).reverse = some d ∧
+    d.reverse = some (Op.createIndex ⟨some "ix", "t", none, ["a"], false, [("sqlite_where", "a > 0")]⟩ none) :=
+  reverse_reverse_createIndex_kw _ _ (by simp)
 
 /-- **The reverse names what the op made**: same table, schema and object, inverse kind, and for a
 constraint the same constraint type (every op kind, every field value). -/
@@ -230,7 +295,7 @@ theorem reverse_shape (o r : Op) (h : o.reverse = some r) : undoesShape o r = tr
   | dropTableComment t s e => simp [Op.reverse] at h; subst h; simp [undoesShape]
 
 /-- the recogniser rejects a drop that forgot the constraint type -/
-example : undoesShape (.addConstraint ⟨.primaryKey, some "pk", "t", none, "id", none, none⟩)
+example : undoesShape (.addConstraint ⟨.primaryKey, some "pk", "t", none, "id", none, none, none⟩)
     (.dropConstraint (some "pk") "t" none none none) = false := by decide
 
 theorem alter_rr (a : Alter) (hc : Alter.complete a = true) : a.reverse.reverse = a := by
